@@ -207,6 +207,7 @@ impl<'a> MessageParser<'a> {
 
         if tag == Tag::SymKeyEncryptedSessionKey || tag == Tag::PublicKeyEncryptedSessionKey {
             let esk = Esk::try_from_reader(&mut packet)?;
+            ensure_packet_consumed(&mut packet)?;
             esks.push(esk);
         } else {
             // this message consists of just a bare encryption container
@@ -231,6 +232,7 @@ impl<'a> MessageParser<'a> {
             match tag {
                 Tag::SymKeyEncryptedSessionKey | Tag::PublicKeyEncryptedSessionKey => {
                     let esk = Esk::try_from_reader(&mut packet)?;
+                    ensure_packet_consumed(&mut packet)?;
                     esks.push(esk);
                     packets = crate::packet::PacketParser::new(packet.into_inner());
                 }
@@ -287,8 +289,8 @@ impl<'a> MessageParser<'a> {
     }
 }
 
-/// A Signature or One-Pass Signature packet in front of a message must consist of exactly the
-/// parsed packet, as for packets read through the `PacketParser`.
+/// A Signature, One-Pass Signature or session key packet in front of a message must consist of
+/// exactly the parsed packet, as for packets read through the `PacketParser`.
 fn ensure_packet_consumed<R: std::io::BufRead>(packet: &mut R) -> Result<()> {
     let size = packet.drain()?;
     if size > 0 {
